@@ -546,7 +546,11 @@ func (res *PropResult) writeEvidence(verif, prop string, cfg *PropCfg, tier stri
 		"sequential semantics per function: no interleavings are explored; locks are no-ops; sync/atomic operations are single steps",
 		"64-bit integer arithmetic treated as mathematical (no overflow); <=32-bit arithmetic and all conversions wrap exactly",
 		"run-time panics (nil dereference, index out of range, failed type assertion) are assumed away except in functions marked panics-never",
-		"slices are values: backing-array aliasing and capacity are not modelled; strings are byte sequences")
+		"slices are values: backing-array aliasing and capacity are not modelled; strings are byte sequences",
+		"heap well-formedness at entry: references held in parameters, slices, sync.Maps and fields of objects that exist at entry were allocated before the call",
+		"go statements have no effect on the spawner (a spawned closure is only recorded in the ghost set spawned); a closure value is identified by its function and the values of its singly-assigned captured variables",
+		"higher-order library helpers (retry / backoff helpers, goset.Set.Range, sync.Map.Range) are sequentialised stubs: the closure's non-each ensures are assumed across all its calls (they must be reflexive-transitive two-state relations), each_* ensures for every element when the last call returned true",
+		"interface contracts are assumed for every implementation (no interface-implementation obligations are generated)")
 	for _, a := range res.Abstract {
 		assumptions = append(assumptions, "abstraction: "+a)
 	}
